@@ -652,7 +652,9 @@ func vWildLine(r *rand.Rand, anyNick, anyChan func() string) string {
 		b[r.Intn(len(b))] = byte(r.Intn(256))
 		s = string(b)
 	}
-	return s
+	// what reaches the state machine through the HTTP API went through encoding/json,
+	// which replaces invalid UTF-8 by U+FFFD
+	return strings.ToValidUTF8(s, "\uFFFD")
 }
 
 // vVerifyMirror is the harness's own reading of a token it minted itself
